@@ -34,10 +34,18 @@ Ltac split_cmp :=
          | |- context [?a =? ?b] => destruct (a =? b) eqn:?; cbn [andb orb negb] in *
          end.
 
-Ltac solve_refine :=
-  unfold passes; intros;
-  match goal with H : run_entry _ _ _ _ _ _ = -1 |- _ => vm_compute in H end;
-  vm_compute; split_cmp; finish.
+Ltac norm_table :=
+  unfold passes, run_entry in *;
+  repeat match goal with
+  | H : context [lookup vm_table ?c] |- _ =>
+      let e := eval vm_compute in (lookup vm_table c) in change (lookup vm_table c) with e in H
+  | |- context [lookup vm_table ?c] =>
+      let e := eval vm_compute in (lookup vm_table c) in change (lookup vm_table c) with e
+  end;
+  cbn [first_raise guard_holds holds mk_state sarg junk eval_i eval_l len_as cmpb tag_eqb o_tag o_len o_imm negb
+       spec indexed typed is_obj in_range andb orb] in *.
+
+Ltac solve_refine := intros; norm_table; split_cmp; finish.
 
 (** soundness direction, by operand shape: each lemma fixes the shapes that matter and leaves the
     numbers universally quantified *)
@@ -81,11 +89,11 @@ Section Refine.
 
   (** completeness direction: inside the must-value domain no guard raises *)
   Lemma complete_vector_ref : spec PrVectorRef [a1; a2] = MustValue -> passes code_VECTOR_REF a1 a2 a3 a4.
-  Proof. destr_val a1; destr_val a2; unfold passes; intros H; vm_compute in H; vm_compute; split_cmp; finish. Qed.
+  Proof. destr_val a1; destr_val a2; solve_refine. Qed.
   Lemma complete_bytes_set : spec PrBytesSet [a1; a2; a3] = MustValue -> passes code_BYTES_SET a1 a2 a3 a4.
-  Proof. destr_val a1; destr_val a2; destr_val a3; unfold passes; intros H; vm_compute in H; vm_compute; split_cmp; finish. Qed.
+  Proof. destr_val a1; destr_val a2; destr_val a3; solve_refine. Qed.
   Lemma complete_cursor_next : spec PrStringCursorNext [a1; a2] = MustValue -> passes code_STRING_CURSOR_NEXT a1 a2 a3 a4.
-  Proof. destr_val a1; destr_val a2; unfold passes; intros H; vm_compute in H; vm_compute; split_cmp; finish. Qed.
+  Proof. destr_val a1; destr_val a2; solve_refine. Qed.
 End Refine.
 
 (** all seventeen in one statement *)
